@@ -25,7 +25,7 @@ RULE = (
     "child re-creates the aggregator on the same file and resubmits all subjects. Crossed with the initial states {absent, "
     "empty, header only, header + 2 rows}; variants: graceful exit at the crash point (exit handlers run), crash during "
     "recovery (depth 2, sampled), two worker threads in the crashing session, output path given without extension. Plus "
-    "histories of 2..4 sessions with overlapping subject sets and sibling aggregators on two files of one directory (one.tsv/two.tsv, results.model_a.tsv/results.model_b.tsv, run.tsv/run_2.tsv, a.b.tsv/a.tsv) or the same file name in two directories, two sessions inside one interpreter with the first object garbage-collected "
+    "histories of 2..4 sessions with overlapping subject sets and sibling aggregators on two files of one directory (one.tsv/two.tsv, results.model_a.tsv/results.model_b.tsv, run.tsv/run_2.tsv, a.b.tsv/a.tsv, res_panoptica_aggregator_tmp.tsv/res.tsv) or the same file name in two directories, two sessions inside one interpreter with the first object garbage-collected "
     "(interleaved in one process; in two processes where one exits first). Non-trivial = every crash point / history; "
     "distinct = (initial state, variant, k) resp. hash of the history."
     ' Further: subject names that are prefixes, suffixes or substrings of one another, sessions on a relative output path, restart under another PYTHONHASHSEED.'
@@ -362,7 +362,9 @@ def siblings(ctx, i):
     r = gen.rng(ctx.seed, "c17sib", i)
     d = tempfile.mkdtemp(prefix="c17b_", dir=os.environ.get("VERIF_TMP"))
     n1, n2 = [("one.tsv", "two.tsv"), ("results.model_a.tsv", "results.model_b.tsv"), ("run.tsv", "run_2.tsv"), ("a.b.tsv", "a.tsv"),
-              ("model_a/results.tsv", "model_b/results.tsv"), ("result.tsv", "results.tsv"), ("pred_t.tsv", "pred_v.tsv"), ("x.tsv", "xt.tsv")][(i // 3) % 8]
+              ("model_a/results.tsv", "model_b/results.tsv"), ("result.tsv", "results.tsv"), ("pred_t.tsv", "pred_v.tsv"), ("x.tsv", "xt.tsv"),
+              # an output file whose name looks like a temporary file of its neighbour (whatever the library calls those)
+              ("res_panoptica_aggregator_tmp.tsv", "res.tsv"), ("res.tsv.panoptica_aggregator_tmp.tsv", "res.tsv")][(i // 3) % 10]
     one, two = os.path.join(d, n1), os.path.join(d, n2)
     for pth in (one, two):
         os.makedirs(os.path.dirname(pth), exist_ok=True)
